@@ -1,5 +1,6 @@
 import GrinVerif.Drv.Common
 import GrinVerif.Model.Pool
+import GrinVerif.Model.PoolNode
 /-! Driver glue for the `pool` domain (C14): the harness describes outputs, transactions, the
 head state and every pool operation; the model recomputes verdicts and pool contents, and
 evaluates the property's specification (`jointlyValidB`, `mineVerdict`) on its own state. -/
@@ -57,6 +58,15 @@ def parseSrc (s : String) : Option Src :=
 
 def srcLetter : Src → String
   | .pushApi => "P" | .broadcast => "B" | .fluff => "F" | .embargoExpired => "E" | .deaggregate => "D"
+
+/-- `stemepoch=0|1 expired=0|1 always=0|1 relay=none|ok|fail` -/
+def parseEpoch (args : List String) : Option Epoch :=
+  match kv args "stemepoch", kv args "expired", kv args "always", kv args "relay" with
+  | some s, some e, some a, some r =>
+    let relay : Option (Option Bool) := match r with
+      | "none" => some none | "ok" => some (some true) | "fail" => some (some false) | _ => none
+    relay.map fun rl => { isStem := s == "1", expired := e == "1", alwaysStemOurs := a == "1", relay := rl }
+  | _, _, _, _ => none
 
 def sortNat (l : List Nat) : List Nat := (l.toArray.qsort (· < ·)).toList
 
@@ -170,6 +180,54 @@ def handle (st : St) (args : List String) (impl : String) : St × Verdict :=
     | _, _ => (st, .unknown)
   | ["reconcile_reorg_cache", _] =>
     ({ st with pool := st.pool.reconcileReorgCache st.ctx }, cmpModel "ok" impl)
+  -- the callers of the pool in a running node (Model/PoolNode.lean)
+  | "recv" :: t :: rest =>
+    match (idOf t).bind (fun i => st.txs.find? (·.1 == i)), kv rest "syncing", kv rest "stem", parseEpoch rest with
+    | some (_, tx), some syncing, some stem, some ep =>
+      match subTxOf st.ctx tx ((kv rest "form").getD "v3") with
+      | some sub =>
+        let (p, r) := st.pool.transactionReceived st.ctx (syncing == "1") ep sub.tx (stem == "1")
+        ({ st with pool := p }, cmpModel (toString r) impl)
+      | none => (st, .unknown)
+    | _, _, _, _ => (st, .unknown)
+  | "push" :: t :: rest =>
+    -- `add_to_pool` with the real net adapter: whether the relay takes a stem transaction is the
+    -- model's `stemTxAccepted` on the epoch the harness observed
+    match (idOf t).bind (fun i => st.txs.find? (·.1 == i)), (kv rest "src").bind parseSrc, kv rest "stem", parseEpoch rest with
+    | some (_, tx), some src, some stem, some ep =>
+      match subTxOf st.ctx tx ((kv rest "form").getD "v3") with
+      | some sub =>
+        let (p, r) := st.pool.submit st.ctx src sub (stem == "1") (stemTxAccepted ep src)
+        ({ st with pool := p }, cmpSubmit (showRes r) impl)
+      | none => (st, .unknown)
+    | _, _, _, _ => (st, .unknown)
+  | "stem_accepted" :: rest =>
+    match (kv rest "src").bind parseSrc, parseEpoch rest with
+    | some src, some ep => (st, cmpModel (toString (stemTxAccepted ep src)) impl)
+    | _, _ => (st, .unknown)
+  | "fluff_phase" :: rest =>
+    match kv rest "expired", kv rest "anyold" with
+    | some e, some a =>
+      let (p, r) := st.pool.fluffPhase st.ctx (e == "1") (a == "1")
+      ({ st with pool := p }, cmpModel (showRes r) impl)
+    | _, _ => (st, .unknown)
+  | "expire" :: rest =>
+    match (kv rest "old").bind (fun s => (listItems s).mapM fun t => (idOf t).bind fun i => (st.txs.find? (·.1 == i)).map (·.2)) with
+    | some old => ({ st with pool := st.pool.expireEntries st.ctx old }, cmpModel "ok" impl)
+    | none => (st, .unknown)
+  | "monitor" :: rest =>
+    let txsOf (k : String) : Option (List Tx) :=
+      (kv rest k).bind (fun s => (listItems s).mapM fun t => (idOf t).bind fun i => (st.txs.find? (·.1 == i)).map (·.2))
+    match parseEpoch rest, txsOf "oldagg", txsOf "oldemb" with
+    | some ep, some oa, some oe =>
+      ({ st with pool := st.pool.monitorPass st.ctx ep oa oe }, cmpModel "ok" impl)
+    | _, _, _ => (st, .unknown)
+  | ["build_block"] =>
+    -- what `mine_block::get_block` built: the transactions in the block and whether a chain takes it
+    let m := match st.pool.buildBlock st.ctx with
+      | some txs => s!"{showList (txs.map txSig)}:ok"
+      | none => s!"{showList ((st.pool.blockTxs st.ctx).map txSig)}:rejected"
+    (st, cmpModel m impl)
   | ["evict"] => ({ st with pool := st.pool.evictFromTxpool st.ctx }, cmpModel "ok" impl)
   | ["truncate_cache", n] =>
     match n.toNat? with
